@@ -10,6 +10,7 @@ import (
 	"verifharness/props/c01"
 	"verifharness/props/c02"
 	"verifharness/props/c03"
+	"verifharness/props/c04"
 	"verifharness/props/c05"
 	"verifharness/props/c17"
 )
@@ -18,6 +19,7 @@ var props = map[string]func(*core.Ctx) int{
 	"C01": c01.Run,
 	"C02": c02.Run,
 	"C03": c03.Run,
+	"C04": c04.Run,
 	"C05": c05.Run,
 	"C17": c17.Run,
 }
